@@ -32,69 +32,81 @@ mod opt_cols__ser;
 mod opt_cols__src2;
 mod cartesian__pari;
 mod same_gen__ren;
-mod two_inputs__ser;
-mod two_inputs__src0;
-mod two_inputs__perm1;
-mod wild__par;
-mod ternary__permpar;
-mod bound_mix__perm2;
-mod join_chain__pari;
-mod cond_simple_join__ser;
-mod zero_arity__ser;
-mod lag_right__pari;
-mod lag_right__u64;
-mod lag_three__par;
-mod lag_mid__perm2;
-mod lag_late_delta__pari;
-mod multi_head_rec__exp;
-mod sp_dual__mrt;
-mod sp_dual__runpar;
-mod sp_weighted__pari;
-mod set_reach__ser;
-mod set_reach__src0;
-mod bset__ser;
-mod cp__to;
-mod bool_lat__ser;
-mod lat_multi_improve__pari;
-mod lat_input__pari;
-mod lat_input__src2;
-mod count_paths__pari;
-mod count_paths__src2;
-mod neg_basic__pari;
-mod neg_basic__src2;
-mod neg_basic__ren;
-mod agg_depth__par;
-mod agg_lattice__topar;
-mod neg_rec_after__exppar;
-mod agg_empty__topar;
-mod agg_const_args__pari;
-mod disj__run;
-mod disj__init;
-mod disj__exppar;
-mod pat_args__pari;
-mod multi_head_disj__ser;
-mod neg_in_disj__exp;
-mod mac_basic__mrt;
-mod mac_basic__runpar;
-mod mac_capture__exppar;
-mod mac_gensym_disj__pari;
-mod rnd_core_01__ser;
-mod rnd_core_03__pari;
-mod rnd_core_06__par;
-mod rnd_core_09__ser;
-mod rnd_core_11__pari;
-mod rnd_core_14__par;
-mod rnd_core_17__ser;
-mod rnd_core_19__pari;
-mod rnd_core_22__par;
-mod rnd_core_25__ser;
-mod rnd_core_27__pari;
-mod rnd_core_30__par;
-mod rnd_agg_03__ser;
-mod rnd_agg_05__pari;
-mod rnd_agg_08__par;
-mod rnd_agg_11__ser;
-mod rnd_agg_13__pari;
+mod not_reorderable__to;
+mod pre_join_rec__pari;
+mod two_inputs__par;
+mod two_inputs__src1;
+mod two_inputs__perm2;
+mod wild__pari;
+mod ternary__str;
+mod bound_mix__ren;
+mod join_chain__perm1;
+mod cond_simple_join__par;
+mod zero_arity__par;
+mod lag_right__to;
+mod lag_right__strpar;
+mod lag_three__pari;
+mod lag_mid__ren;
+mod lag_late_delta__to;
+mod multi_head_rec__exppar;
+mod sp_dual__gen;
+mod sp_dual__srcpar;
+mod sp_weighted__to;
+mod set_reach__par;
+mod set_reach__src1;
+mod bset__par;
+mod cp__topar;
+mod bool_lat__par;
+mod lat_multi_improve__to;
+mod lat_count_all__par;
+mod lat_input__to;
+mod lat_input__srcto;
+mod count_paths__to;
+mod count_paths__srcto;
+mod neg_basic__to;
+mod neg_basic__srcto;
+mod neg_basic__permpar;
+mod agg_depth__pari;
+mod agg_user__ser;
+mod agg_bound_mix__ser;
+mod agg_empty_rel__ser;
+mod agg_const_args__exp;
+mod disj__to;
+mod disj__srcto;
+mod disj__permpar;
+mod pat_args__ser;
+mod rep_expr__exp;
+mod neg_in_disj__par;
+mod mac_basic__topar;
+mod mac_basic__redecl;
+mod mac_capture__pari;
+mod mac_gensym_disj__ser;
+mod mac_disj__exp;
+mod rnd_core_03__ser;
+mod rnd_core_05__pari;
+mod rnd_core_08__par;
+mod rnd_core_11__ser;
+mod rnd_core_13__pari;
+mod rnd_core_16__par;
+mod rnd_core_19__ser;
+mod rnd_core_21__pari;
+mod rnd_core_24__par;
+mod rnd_core_27__ser;
+mod rnd_core_29__pari;
+mod rnd_agg_02__par;
+mod rnd_agg_05__ser;
+mod rnd_agg_07__pari;
+mod rnd_agg_10__par;
+mod rnd_agg_13__ser;
+mod rnd_agg_15__pari;
+mod rnd_prec_02__pari;
+mod rnd_prec_04__ser;
+mod rnd_prec_05__to;
+mod rnd_prec_07__par;
+mod rnd_prec_08__topar;
+mod rnd_prea_03__par;
+mod rnd_prea_06__ser;
+mod rnd_prea_08__pari;
 
 fn lookup(name: &str) -> fn() -> Box<dyn Driven> {
    match name {
@@ -122,69 +134,81 @@ fn lookup(name: &str) -> fn() -> Box<dyn Driven> {
       "opt_cols__src2" => opt_cols__src2::make,
       "cartesian__pari" => cartesian__pari::make,
       "same_gen__ren" => same_gen__ren::make,
-      "two_inputs__ser" => two_inputs__ser::make,
-      "two_inputs__src0" => two_inputs__src0::make,
-      "two_inputs__perm1" => two_inputs__perm1::make,
-      "wild__par" => wild__par::make,
-      "ternary__permpar" => ternary__permpar::make,
-      "bound_mix__perm2" => bound_mix__perm2::make,
-      "join_chain__pari" => join_chain__pari::make,
-      "cond_simple_join__ser" => cond_simple_join__ser::make,
-      "zero_arity__ser" => zero_arity__ser::make,
-      "lag_right__pari" => lag_right__pari::make,
-      "lag_right__u64" => lag_right__u64::make,
-      "lag_three__par" => lag_three__par::make,
-      "lag_mid__perm2" => lag_mid__perm2::make,
-      "lag_late_delta__pari" => lag_late_delta__pari::make,
-      "multi_head_rec__exp" => multi_head_rec__exp::make,
-      "sp_dual__mrt" => sp_dual__mrt::make,
-      "sp_dual__runpar" => sp_dual__runpar::make,
-      "sp_weighted__pari" => sp_weighted__pari::make,
-      "set_reach__ser" => set_reach__ser::make,
-      "set_reach__src0" => set_reach__src0::make,
-      "bset__ser" => bset__ser::make,
-      "cp__to" => cp__to::make,
-      "bool_lat__ser" => bool_lat__ser::make,
-      "lat_multi_improve__pari" => lat_multi_improve__pari::make,
-      "lat_input__pari" => lat_input__pari::make,
-      "lat_input__src2" => lat_input__src2::make,
-      "count_paths__pari" => count_paths__pari::make,
-      "count_paths__src2" => count_paths__src2::make,
-      "neg_basic__pari" => neg_basic__pari::make,
-      "neg_basic__src2" => neg_basic__src2::make,
-      "neg_basic__ren" => neg_basic__ren::make,
-      "agg_depth__par" => agg_depth__par::make,
-      "agg_lattice__topar" => agg_lattice__topar::make,
-      "neg_rec_after__exppar" => neg_rec_after__exppar::make,
-      "agg_empty__topar" => agg_empty__topar::make,
-      "agg_const_args__pari" => agg_const_args__pari::make,
-      "disj__run" => disj__run::make,
-      "disj__init" => disj__init::make,
-      "disj__exppar" => disj__exppar::make,
-      "pat_args__pari" => pat_args__pari::make,
-      "multi_head_disj__ser" => multi_head_disj__ser::make,
-      "neg_in_disj__exp" => neg_in_disj__exp::make,
-      "mac_basic__mrt" => mac_basic__mrt::make,
-      "mac_basic__runpar" => mac_basic__runpar::make,
-      "mac_capture__exppar" => mac_capture__exppar::make,
-      "mac_gensym_disj__pari" => mac_gensym_disj__pari::make,
-      "rnd_core_01__ser" => rnd_core_01__ser::make,
-      "rnd_core_03__pari" => rnd_core_03__pari::make,
-      "rnd_core_06__par" => rnd_core_06__par::make,
-      "rnd_core_09__ser" => rnd_core_09__ser::make,
-      "rnd_core_11__pari" => rnd_core_11__pari::make,
-      "rnd_core_14__par" => rnd_core_14__par::make,
-      "rnd_core_17__ser" => rnd_core_17__ser::make,
-      "rnd_core_19__pari" => rnd_core_19__pari::make,
-      "rnd_core_22__par" => rnd_core_22__par::make,
-      "rnd_core_25__ser" => rnd_core_25__ser::make,
-      "rnd_core_27__pari" => rnd_core_27__pari::make,
-      "rnd_core_30__par" => rnd_core_30__par::make,
-      "rnd_agg_03__ser" => rnd_agg_03__ser::make,
-      "rnd_agg_05__pari" => rnd_agg_05__pari::make,
-      "rnd_agg_08__par" => rnd_agg_08__par::make,
-      "rnd_agg_11__ser" => rnd_agg_11__ser::make,
-      "rnd_agg_13__pari" => rnd_agg_13__pari::make,
+      "not_reorderable__to" => not_reorderable__to::make,
+      "pre_join_rec__pari" => pre_join_rec__pari::make,
+      "two_inputs__par" => two_inputs__par::make,
+      "two_inputs__src1" => two_inputs__src1::make,
+      "two_inputs__perm2" => two_inputs__perm2::make,
+      "wild__pari" => wild__pari::make,
+      "ternary__str" => ternary__str::make,
+      "bound_mix__ren" => bound_mix__ren::make,
+      "join_chain__perm1" => join_chain__perm1::make,
+      "cond_simple_join__par" => cond_simple_join__par::make,
+      "zero_arity__par" => zero_arity__par::make,
+      "lag_right__to" => lag_right__to::make,
+      "lag_right__strpar" => lag_right__strpar::make,
+      "lag_three__pari" => lag_three__pari::make,
+      "lag_mid__ren" => lag_mid__ren::make,
+      "lag_late_delta__to" => lag_late_delta__to::make,
+      "multi_head_rec__exppar" => multi_head_rec__exppar::make,
+      "sp_dual__gen" => sp_dual__gen::make,
+      "sp_dual__srcpar" => sp_dual__srcpar::make,
+      "sp_weighted__to" => sp_weighted__to::make,
+      "set_reach__par" => set_reach__par::make,
+      "set_reach__src1" => set_reach__src1::make,
+      "bset__par" => bset__par::make,
+      "cp__topar" => cp__topar::make,
+      "bool_lat__par" => bool_lat__par::make,
+      "lat_multi_improve__to" => lat_multi_improve__to::make,
+      "lat_count_all__par" => lat_count_all__par::make,
+      "lat_input__to" => lat_input__to::make,
+      "lat_input__srcto" => lat_input__srcto::make,
+      "count_paths__to" => count_paths__to::make,
+      "count_paths__srcto" => count_paths__srcto::make,
+      "neg_basic__to" => neg_basic__to::make,
+      "neg_basic__srcto" => neg_basic__srcto::make,
+      "neg_basic__permpar" => neg_basic__permpar::make,
+      "agg_depth__pari" => agg_depth__pari::make,
+      "agg_user__ser" => agg_user__ser::make,
+      "agg_bound_mix__ser" => agg_bound_mix__ser::make,
+      "agg_empty_rel__ser" => agg_empty_rel__ser::make,
+      "agg_const_args__exp" => agg_const_args__exp::make,
+      "disj__to" => disj__to::make,
+      "disj__srcto" => disj__srcto::make,
+      "disj__permpar" => disj__permpar::make,
+      "pat_args__ser" => pat_args__ser::make,
+      "rep_expr__exp" => rep_expr__exp::make,
+      "neg_in_disj__par" => neg_in_disj__par::make,
+      "mac_basic__topar" => mac_basic__topar::make,
+      "mac_basic__redecl" => mac_basic__redecl::make,
+      "mac_capture__pari" => mac_capture__pari::make,
+      "mac_gensym_disj__ser" => mac_gensym_disj__ser::make,
+      "mac_disj__exp" => mac_disj__exp::make,
+      "rnd_core_03__ser" => rnd_core_03__ser::make,
+      "rnd_core_05__pari" => rnd_core_05__pari::make,
+      "rnd_core_08__par" => rnd_core_08__par::make,
+      "rnd_core_11__ser" => rnd_core_11__ser::make,
+      "rnd_core_13__pari" => rnd_core_13__pari::make,
+      "rnd_core_16__par" => rnd_core_16__par::make,
+      "rnd_core_19__ser" => rnd_core_19__ser::make,
+      "rnd_core_21__pari" => rnd_core_21__pari::make,
+      "rnd_core_24__par" => rnd_core_24__par::make,
+      "rnd_core_27__ser" => rnd_core_27__ser::make,
+      "rnd_core_29__pari" => rnd_core_29__pari::make,
+      "rnd_agg_02__par" => rnd_agg_02__par::make,
+      "rnd_agg_05__ser" => rnd_agg_05__ser::make,
+      "rnd_agg_07__pari" => rnd_agg_07__pari::make,
+      "rnd_agg_10__par" => rnd_agg_10__par::make,
+      "rnd_agg_13__ser" => rnd_agg_13__ser::make,
+      "rnd_agg_15__pari" => rnd_agg_15__pari::make,
+      "rnd_prec_02__pari" => rnd_prec_02__pari::make,
+      "rnd_prec_04__ser" => rnd_prec_04__ser::make,
+      "rnd_prec_05__to" => rnd_prec_05__to::make,
+      "rnd_prec_07__par" => rnd_prec_07__par::make,
+      "rnd_prec_08__topar" => rnd_prec_08__topar::make,
+      "rnd_prea_03__par" => rnd_prea_03__par::make,
+      "rnd_prea_06__ser" => rnd_prea_06__ser::make,
+      "rnd_prea_08__pari" => rnd_prea_08__pari::make,
       _ => panic!("no such program variant in this shard: {}", name),
    }
 }
